@@ -108,20 +108,27 @@ pub broadcast axiom fn ax_cloned_eq<T: Clone>(a: T, b: T) ensures #[trigger] clo
 pub broadcast group group_wrap { ax_key_str, ax_bar_literal, b_join1, b_join2, b_join3, ax_cloned_eq }
 ''')
 
-AWAIT_SPEC = dict(kind='raw', label='await_spec', text='''
-// ---------------------------------------------------------------- suspension at the .await of the user body (C20, interference projection)
-/// While the call is suspended no lock is held (await obligations), so every other task may run any cache operation. Each of
-/// them preserves the representation invariant and the configuration (postconditions post_wf / cfg_frame of the engine units): that
-/// is the RELY condition stated here; everything else about store, queue and statistics is arbitrary afterwards.
+AWAIT_TEXT = '''
+// ---------------------------------------------------------------- the user body runs with no cache lock held (interference projection)
+/// While the body runs (async: while the call is suspended at the .await) no lock is held (lock / await obligations), so every
+/// other thread / task may run any cache operation. Each of them preserves the representation invariant and the configuration
+/// (postconditions post_wf / cfg_frame of the engine units): that is the RELY condition stated here; everything else about store,
+/// queue and statistics is arbitrary afterwards.
 #[verifier::external_body]
-pub fn await_point<R: Clone>(c: &mut AsyncGlobalCache<R>)
+pub fn await_point<R: Clone>(c: &mut %(engine)s<R>)
     ensures
         final(c).limit == old(c).limit && final(c).max_memory == old(c).max_memory && final(c).policy == old(c).policy
             && final(c).ttl == old(c).ttl && final(c).frequency_weight == old(c).frequency_weight,
-        wf(final(c).cache@, final(c).order@),
-        a_freq_far(final(c).cache@),
+        wf(final(c).%(m)s@, final(c).order@),
+        %(far)s(final(c).%(m)s@),
 { }
-''')
+'''
+
+
+def await_spec(flavour):
+    fl = FLAV[flavour]
+    return dict(kind='raw', label='await_spec', text=AWAIT_TEXT % dict(engine=fl['engine'], m=fl['m'], far='a_freq_far' if flavour == 'async' else 'freq_far'))
+
 
 CB_SPEC = dict(kind='raw', label='callback_spec', text='''
 // ---------------------------------------------------------------- invalidation callbacks registered by the macros (C12, C13)
@@ -270,20 +277,27 @@ def contract(name, attrs, info, fixture_src):
 
 
 def contract_await(name, attrs, info, fixture_src):
-    """Only schedule-independent clauses: what must hold whatever other tasks did while the call was suspended."""
+    """Only schedule-independent clauses: what must hold whatever other threads / tasks did while the body ran."""
     req, _ens = contract(name, attrs, info, fixture_src)
+    fl = FLAV[info['scope']]
     K = key_expr(attrs)
-    M0, M1 = 'old(__cache).cache@', 'final(__cache).cache@'
-    V0, V1 = '%s[%s].0' % (M0, K), '%s[%s].0' % (M1, K)
-    HIT = '(%s.contains_key(%s) && !aexpired(%s[%s], old(__cache).ttl))' % (M0, K, M0, K)
+    M0, M1 = 'old(__cache).%s@' % fl['m'], 'final(__cache).%s@' % fl['m']
+    V0, V1 = fl['val'] % ('%s[%s]' % (M0, K)), fl['val'] % ('%s[%s]' % (M1, K))
+    HIT = '(%s.contains_key(%s) && !%s)' % (M0, K, fl['exp'] % ('%s[%s]' % (M0, K), 'old(__cache).ttl'))
     RUNS0, RUNS1 = 'old(fx).body_runs@', 'final(fx).body_runs@'
     RAN = '%s == %s + 1' % (RUNS1, RUNS0)
-    STORED = '(%s.contains_key(%s) && %s == ret)' % (M1, K, V1)
-    if attrs.get('max_memory') is not None:
-        STORED = '(ret.mem() <= old(__cache).max_memory->Some_0 ==> %s)' % STORED
+    if info['scope'] == 'async':
+        STORED = '(%s.contains_key(%s) && %s == ret)' % (M1, K, V1)
+        if attrs.get('max_memory') is not None:
+            STORED = '(ret.mem() <= old(__cache).max_memory->Some_0 ==> %s)' % STORED
+    else:
+        # sync stores first and evicts afterwards: the zero-hit newcomer may be the victim; if it is resident it holds this result
+        STORED = '(%s.contains_key(%s) ==> %s == ret)' % (M1, K, V1)
     accept = []
     if attrs.get('cache_if'):
         accept.append('%s_spec(%s, ret)' % (attrs['cache_if'], K))
+        if attrs['is_result'] and info['scope'] != 'async':
+            accept.append('ret is Ok')
     elif attrs['is_result']:
         accept.append('ret is Ok')
     ens = [('post_wf', ['C20', 'C04'], 'wf(%s, final(__cache).order@)' % M1),
@@ -291,6 +305,8 @@ def contract_await(name, attrs, info, fixture_src):
            ('resumed_call_stores_its_result', ['C20', 'C03', 'C01'], '(%s) ==> %s' % (' && '.join([RAN] + accept), STORED))]
     if not attrs.get('invalidate_on'):
         ens.append(('hit_is_served_before_any_suspension', ['C20', 'C03'], '%s ==> ret == %s && %s == %s' % (HIT, V0, RUNS1, RUNS0)))
+    if info['scope'] != 'async' and attrs.get('max_memory') is None and not any(r[0] == 'counters_far_from_saturation' for r in req):
+        req.append(('counters_far_from_saturation', 'freq_far(%s)' % M0))
     return req, ens
 
 
@@ -382,7 +398,7 @@ def build(flavour, await_interference=False):
             items.append(it)
     items.append(WRAP_SPEC)
     if await_interference:
-        items.append(AWAIT_SPEC)
+        items.append(await_spec(flavour))
     items.append(CB_SPEC)
     exp_stripped = exp
     seen_shapes, same_as = {}, []
